@@ -30,6 +30,7 @@ Verdict(L) ==
         bad == IF ~p.ok THEN "bad-input"
                ELSE IF L.obs.outcome # "ok" THEN "outcome"
                ELSE IF "tree" \notin DOMAIN L.obs \/ L.obs.tree # p.tree THEN "tree"
+               ELSE IF "fd_delta" \in DOMAIN L.obs /\ L.obs.fd_delta # FdDelta THEN "fd_delta"       \* fds' = fds
                ELSE ""
     IN [id |-> L.id, ok |-> bad = "", field |-> bad, cls |-> DocClass(p, L.doc), exp |-> e]
   ELSE
